@@ -220,3 +220,25 @@ package keeper
 //@   modifies nothing
 //@   ensures result == (sumTo(trLogs[layer(ctx)], max(1, trCount[layer(ctx)])) - (exceptCurrent ? trLogs[layer(ctx)][max(1, trCount[layer(ctx)]) - 1] : 0)) % pow2(64)
 //@   panics never
+
+// ---------------------------------------------------------------------------------------------
+// params.go / keeper.go — accessors
+// ---------------------------------------------------------------------------------------------
+//@ import bankkeeper "github.com/cosmos/cosmos-sdk/x/bank/keeper"
+
+// the stored x/evm Params record per store layer (trusted summary of store + protobuf codec)
+//@ ghost var evmDenomOf map[int]string
+//@ ghost var evmEnableCreate map[int]bool
+//@ ghost var evmEnableCall map[int]bool
+//@ func (k Keeper) GetParams(ctx sdk.Context) (params evmtypes.Params)
+//@   assumed
+//@   modifies nothing
+//@   ensures params.EvmDenom == evmDenomOf[layer(ctx)] && params.EnableCreate == evmEnableCreate[layer(ctx)] && params.EnableCall == evmEnableCall[layer(ctx)]
+//@   panics never
+
+// GetBalance: the EVM-denomination bank balance of the address (C04/C08 view function)
+//@ func (k *Keeper) GetBalance(ctx sdk.Context, addr common.Address) *big.Int
+//@   requires k != nil && k.bankKeeper != nil
+//@   modifies nothing
+//@   ensures[C04.balance_view] result != nil && bigval[result] == (evmDenomOf[layer(ctx)] == "" ? -1 : bankBal[layer(ctx)][addrBytes(addr)][evmDenomOf[layer(ctx)]])
+//@   panics never
